@@ -31,16 +31,17 @@ REG_PY = {
 }
 
 
-def strict(v, t, path=""):
+def strict(v, t, path="", exact=False):
+    """exact=True: leaf values must be of exactly the hinted class (used to decide which Union member owns a value)."""
     k = t.kind
     if k == "any":
         return None
     if k == "str":
-        return None if type(v) is str or (isinstance(v, str) and not isinstance(v, enum.Enum)) else (path, f"expected str, got {type(v).__name__}")
+        return None if (type(v) is str if exact else isinstance(v, str)) else (path, f"expected str, got {type(v).__name__}")
     if k == "int":
-        return None if isinstance(v, int) and not isinstance(v, bool) else (path, f"expected int, got {type(v).__name__}")
+        return None if (type(v) is int if exact else (isinstance(v, int) and not isinstance(v, bool))) else (path, f"expected int, got {type(v).__name__}")
     if k == "float":
-        return None if isinstance(v, float) else (path, f"expected float, got {type(v).__name__}")
+        return None if (type(v) is float if exact else isinstance(v, float)) else (path, f"expected float, got {type(v).__name__}")
     if k == "bool":
         return None if isinstance(v, bool) else (path, f"expected bool, got {type(v).__name__}")
     if k == "enum":
@@ -52,14 +53,14 @@ def strict(v, t, path=""):
         return (path, f"not a member of Literal{t.extra}: {v!r} ({type(v).__name__})")
     if k == "rnum":
         base, rs, join = t.extra
-        if isinstance(v, bool) or not isinstance(v, base):
-            return (path, f"expected {base.__name__}, got {type(v).__name__}")
+        if isinstance(v, bool) or not isinstance(v, t.hint):
+            return (path, f"expected {t.hint.__name__}, got {type(v).__name__}")
         checks = [OPS[o](v, ref) for o, ref in rs]
         ok = all(checks) if join == "and" else any(checks)
         return None if ok else (path, f"restriction violated by {v!r}")
     if k == "rstr":
-        if not isinstance(v, str):
-            return (path, f"expected str, got {type(v).__name__}")
+        if not isinstance(v, t.hint):
+            return (path, f"expected {t.hint.__name__}, got {type(v).__name__}")
         return None if re.match(t.extra, v) else (path, f"pattern violated by {v!r}")
     if k == "reg":
         if t.extra == "secret":
@@ -73,11 +74,11 @@ def strict(v, t, path=""):
     if k == "path":
         return None if isinstance(v, JPath) else (path, f"expected Path, got {type(v).__name__}")
     if k == "optional":
-        return None if v is None else strict(v, t.children[0], path)
+        return None if v is None else strict(v, t.children[0], path, exact)
     if k == "union":
         rs = []
         for c in t.children:
-            r = strict(v, c, path)
+            r = strict(v, c, path, exact)
             if r is None:
                 return None
             rs.append(r)
@@ -86,7 +87,7 @@ def strict(v, t, path=""):
         if not isinstance(v, list):
             return (path, f"expected list, got {type(v).__name__}")
         for i, x in enumerate(v):
-            r = strict(x, t.children[0], f"{path}[{i}]")
+            r = strict(x, t.children[0], f"{path}[{i}]", exact)
             if r:
                 return r
         return None
@@ -98,7 +99,7 @@ def strict(v, t, path=""):
                 return (path, f"expected int key, got {type(kk).__name__}")
             if t.extra is str and not isinstance(kk, str):
                 return (path, f"expected str key, got {type(kk).__name__}")
-            r = strict(x, t.children[0], f"{path}.{kk}")
+            r = strict(x, t.children[0], f"{path}.{kk}", exact)
             if r:
                 return r
         return None
@@ -108,7 +109,7 @@ def strict(v, t, path=""):
         if len(v) != len(t.children):
             return (path, f"expected tuple of {len(t.children)}, got {len(v)}")
         for i, (x, c) in enumerate(zip(v, t.children)):
-            r = strict(x, c, f"{path}({i})")
+            r = strict(x, c, f"{path}({i})", exact)
             if r:
                 return r
         return None
@@ -116,7 +117,7 @@ def strict(v, t, path=""):
         if not isinstance(v, tuple):
             return (path, f"expected tuple, got {type(v).__name__}")
         for i, x in enumerate(v):
-            r = strict(x, t.children[0], f"{path}({i})")
+            r = strict(x, t.children[0], f"{path}({i})", exact)
             if r:
                 return r
         return None
@@ -124,7 +125,7 @@ def strict(v, t, path=""):
         if not isinstance(v, set):
             return (path, f"expected set, got {type(v).__name__}")
         for x in v:
-            r = strict(x, t.children[0], f"{path}{{}}")
+            r = strict(x, t.children[0], f"{path}{{}}", exact)
             if r:
                 return r
         return None
@@ -146,7 +147,7 @@ def strict(v, t, path=""):
         ft = DATACLASS_FIELD_T.get(t.extra, {})
         for name, x in v.items():
             if name in ft:
-                r = strict(x, ft[name], f"{path}.{name}")
+                r = strict(x, ft[name], f"{path}.{name}", exact)
                 if r:
                     return r
         return None
